@@ -75,6 +75,18 @@ Definition get_on_cluster (RQ : nat) (read_repair_on idle : bool) (now_ms : Z)
       else (Value winner, if read_repair_on then read_repair winner versions else [])
     end.
 
+(* internal/dmap/atomic.go (atomicIncrDecr, loadCurrentAtomicInt) on the partition owner, under the key's lock: the current
+   value is read with the read quorum; key-not-found starts from 0; any other failure of the read refuses the operation and
+   nothing is written.  [value_of] parses the stored text. *)
+Inductive incr_res := IRefused | INew (v : Z).
+Definition incr_on_cluster (RQ : nat) (idle : bool) (now_ms : Z) (local : option entry) (prev backups : list (option entry))
+           (value_of : entry -> Z) (delta : Z) : incr_res :=
+  match fst (get_on_cluster RQ false idle now_ms local prev backups) with
+  | EReadQuorum => IRefused
+  | ENotFound => INew delta
+  | Value e => INew (value_of e + delta)
+  end.
+
 (* what a remote holder answers to DM.GETENTRY *)
 Definition remote_answer (now_ms : Z) (reachable : bool) (copy : option entry) : option entry :=
   if reachable then
